@@ -944,6 +944,30 @@ pub fn mutating_workloads() -> Vec<(String, usize, Vec<WStep>)> {
             WStep::DropHandle(1),
         ],
     ));
+    // the file grows across the capacity of its first FAT sector (V3: 128 sectors) inside one flush,
+    // then other streams allocate and the flush is repeated
+    v.push((
+        "FAT sector added during a flush, others allocate, flush repeated".to_string(),
+        1 << 20,
+        vec![
+            WStep::Create,
+            WStep::CreateStream(0, "/big".into()),
+            WStep::Write(0, 62_000),
+            WStep::Flush(0),
+            WStep::Write(0, 3000),
+            WStep::Flush(0),
+            WStep::CreateStream(1, "/b".into()),
+            WStep::Write(1, 5000),
+            WStep::Flush(1),
+            WStep::Flush(0),
+            WStep::Write(0, 600),
+            WStep::Flush(0),
+            WStep::Flush(1),
+            WStep::DropHandle(0),
+            WStep::DropHandle(1),
+            WStep::CompFlush,
+        ],
+    ));
     // a mini stream migrates to a regular chain by an append through a fresh handle; the flush is
     // repeated after another small stream has been written and flushed
     v.push((
